@@ -163,10 +163,14 @@ def r2_parse_output(run):
               raised_class(last) == "XmlsecError", "R2",
               fi.qual + "::no-OK=>raise", "no OK line raises XmlsecError",
               "a report without an OK line no longer raises", fi.loc())
-    fails = [r for r in cfg.by_kind("raise")
-             if Q("line == 'FAIL'", True) in
-             facts(cfg, r.id)]
-    run.check(bool(fails), "R2", fi.qual + "::FAIL=>raise",
+    # a FAIL line leads to a raise (directly, or by leaving the loop for the
+    # final raise): from the branch that saw FAIL no normal return is reachable
+    lv = [unparse(l.ast.target) for l in cfg.by_kind("foriter")]
+    fb = [n for n in cfg.nodes if n.kind in ("true", "false") and lv and
+          Q("%s == 'FAIL'" % lv[0], True) in cfg.branch_atoms(n.id)]
+    fails = [n for n in fb if only_raises_from(cfg, n.id)]
+    run.check(bool(fb) and len(fails) == len(fb), "R2",
+              fi.qual + "::FAIL=>raise",
               "a FAIL line raises", "a FAIL line no longer raises", fi.loc(),
               nontrivial=False)
 
